@@ -87,7 +87,4 @@ def b (x : Bool) : Sexp := Sexp.ofBool x
 def ns (xs : List Nat) : Sexp := .list (xs.map Sexp.ofNat)
 def kv (k : String) (v : Sexp) : Sexp := .list [.atom k, v]
 
-/-- generous fuel for the worklist model: it is only a bound, quiescence is reported -/
-def fuelFor (D : CfgData) : Nat := 200 + 40 * (D.graph.nodes.length + 1) * (D.graph.edges.length + 1)
-
 end Malt.Drv.Dataflow
